@@ -326,7 +326,12 @@ def parseCont (iname ident method : String) (ws : List String) : Option Cmd :=
     let env := match fBytes ws "new", fInt ws "ncreated" with
       | some t, some c => some (t, c)
       | _, _ => none
-    some (.cont iname ⟨who, bytesOfString method, cur, call, cancel, sess, now, bytesOfString ((field ws "in").getD "")⟩ env)
+    -- externalized continuation: tokens on the pointer batch (cur/call) and on the uploaded batch (xcur/xcall)
+    let ext := (fBool ws "ext").getD false
+    let xcur := ((fOptBytes ws "xcur").getD none)
+    let xcall := ((fOptBytes ws "xcall").getD none)
+    let eff := effectiveTokens ext cancel cur call xcur xcall
+    some (.cont iname ⟨who, bytesOfString method, eff.1, eff.2, cancel, sess, now, bytesOfString ((field ws "in").getD "")⟩ env)
   | _, _, _, _, _, _ => none
 
 def parseSeal (kind iname ident : String) (ws : List String) : Option Cmd :=
